@@ -153,9 +153,17 @@ static void take_unit(unit_t *me, int i)
 static void wait_blocked(unit_t *me, int i)
 {
     ABT_thread_state st;
+    /* the handle exists only after the creator's call has returned (external threads start at once) */
+    while (!g_u[i].created) {
+        self_yield(me);
+        usleep(20);
+    }
     while (1) {
+        /* "has blocked, or is past blocking": a waiter that comes late must not spin for ever */
+        if (g_u[i].finished || g_u[i].h == ABT_THREAD_NULL)
+            break;
         ABT_thread_get_state(g_u[i].h, &st);
-        if (st == ABT_THREAD_STATE_BLOCKED)
+        if (st == ABT_THREAD_STATE_BLOCKED || st == ABT_THREAD_STATE_TERMINATED)
             break;
         self_yield(me);
         usleep(20); /* polling loops must not flood the event log */
